@@ -25,7 +25,7 @@ RULE_READER = ("TLC explores KinesisReader.tla for small bounds - every interlea
 
 KNOWN_LOCAL = os.path.join(vlib.ROOT, "findings", "known_splitter.jsonl")
 INVS = ["TypeOK", "OneReader", "PerShardOrder"]
-OFF = dict(Dev_StateAtCompletion=False, Pre_CursorAtReaderOnly=False, Bug_AtSeq=False)
+OFF = dict(Dev_StateAtCompletion=False, Pre_CursorAtReaderOnly=False, Bug_AtSeq=False, Bug_StaleSplitterCursor=False)
 CODE = dict(OFF, Dev_StateAtCompletion=True)  # the tree as it is
 
 
@@ -51,7 +51,7 @@ def consts(ninit=1, shards=3, runners=(1, 2), rec=2, page=2, starts=2, ckpts=1, 
 def brief(cc):
     return "N=%d shards<=%d runners=%s rec<=%d page<=%d starts<=%d ckpts<=%d %s" % (
         cc["NInit"], cc["MaxShards"], cc["Runners"][1:], cc["MaxRec"], cc["MaxPage"], cc["MaxStarts"], cc["MaxCkpts"],
-        " ".join(k for k in ("Dev_StateAtCompletion", "Pre_CursorAtReaderOnly", "Bug_AtSeq") if cc[k]) or "all switches off")
+        " ".join(k for k in ("Dev_StateAtCompletion", "Pre_CursorAtReaderOnly", "Bug_AtSeq", "Bug_StaleSplitterCursor") if cc[k]) or "all switches off")
 
 
 def harness_cfg(cc, **extra):
@@ -101,31 +101,46 @@ def replay_gen(c, cc, num, seed, label=None):
     return behs, res
 
 
-def witnesses(c, seed):
-    """schedules only the unrepaired code fails (Pre_CursorAtReaderOnly on), exported from exhaustive runs (CexDump prints the
-    shortest history of every bad state): the real code must keep the property on them"""
-    quick = c.tier == "quick"
-    cfgs = [dict(ninit=1, shards=1, runners=(1,), rec=2, page=1), dict(ninit=2, shards=2, runners=(1, 2), rec=1, page=1)]
+def witnesses(quick, seed):
+    """schedules only a defective variant fails, exported from exhaustive runs (CexDump prints the shortest history of every
+    bad state): Pre_CursorAtReaderOnly = the code before its repair, Bug_StaleSplitterCursor = the repair the wrong way
+    round. The real code must keep the property on them."""
+    cfgs = [("Pre_CursorAtReaderOnly", dict(ninit=1, shards=1, runners=(1,), rec=2, page=1, starts=3, ckpts=2)),
+            ("Pre_CursorAtReaderOnly", dict(ninit=2, shards=2, runners=(1, 2), rec=1, page=1, starts=3, ckpts=2)),
+            ("Bug_StaleSplitterCursor", dict(ninit=1, shards=1, runners=(1, 2), rec=2, page=1, starts=3, ckpts=2)),
+            ("Bug_AtSeq", dict(ninit=1, shards=1, runners=(1, 2), rec=2, page=1, starts=2, ckpts=1))]
     if not quick:
-        cfgs.append(dict(ninit=1, shards=3, runners=(1, 2), rec=1, page=1))
-    for i, kw in enumerate(cfgs):
-        cc = consts(starts=3, ckpts=2, log=True, maxlen=40, **dict(kw, **dict(CODE, Pre_CursorAtReaderOnly=True)))
+        cfgs.append(("Pre_CursorAtReaderOnly", dict(ninit=1, shards=3, runners=(1, 2), rec=1, page=1, starts=3, ckpts=2)))
+        cfgs.append(("Bug_StaleSplitterCursor", dict(ninit=2, shards=2, runners=(1, 2), rec=2, page=2, starts=3, ckpts=2)))
+    out = []
+    for i, (sw, kw) in enumerate(cfgs):
+        cc = consts(log=True, maxlen=40, **dict(kw, **dict(CODE, **{sw: True})))
         r = vlib.run_tlc("KinesisReader", cfg=dict(constants=cc, invariants=["CexDump"], view="View"), workers=1,
                          timeout=90 if quick else 600, name="KinesisReader-cex")
-        c.add_tlc(r, "KinesisReader counterexample export " + brief(cc), must_hold=False)
-        behs = [b for b in r.behaviours if any(x["dev"] == "Pre_CursorAtReaderOnly" for x in b[-1].get("bad", []))]
+        behs = [b for b in r.behaviours if any(x["dev"] == sw for x in b[-1].get("bad", []))]
         behs.sort(key=lambda b: json.dumps(b))
         random.Random(seed + i).shuffle(behs)
         behs = sorted(behs[:12 if quick else 150], key=len)
-        if not behs:
-            c.errors.append("the model no longer exhibits Pre_CursorAtReaderOnly for %s: %s" % (brief(cc), r.error))
+        payload = res = None
+        if behs:
+            payload = dict(property="C16", family="kreader", seed=seed, config=harness_cfg(cc, Adversarial=True), behaviours=behs)
+            res = vlib.run_harness("kreader", payload)
+        out.append((sw, cc, r, payload, res))
+    return out
+
+
+def witnesses_collect(c, out):
+    shown = set()
+    for sw, cc, r, payload, res in out:
+        c.add_tlc(r, "KinesisReader counterexample export " + brief(cc), must_hold=False)
+        if payload is None:
+            c.errors.append("the model does not exhibit %s for %s: %s" % (sw, brief(cc), r.error))
             continue
-        payload = dict(property="C16", family="kreader", seed=seed, config=harness_cfg(cc, Adversarial=True), behaviours=behs)
-        res = vlib.run_harness("kreader", payload)
-        c.add_harness(res, payload, "KinesisReader adversarial: %d witness schedules of Pre_CursorAtReaderOnly on the repaired code (%s)" %
-                      (len(behs), brief(cc)))
-        if i == 0:
-            c.sample(dict(kind="KinesisReader.tla counterexample (Pre_CursorAtReaderOnly), replayed on the real reader + splitter", steps=behs[0]))
+        behs = payload["behaviours"]
+        c.add_harness(res, payload, "KinesisReader adversarial: %d witness schedules of %s on the code (%s)" % (len(behs), sw, brief(cc)))
+        if sw not in shown:
+            shown.add(sw)
+            c.sample(dict(kind="KinesisReader.tla counterexample (%s), replayed on the real reader + splitter" % sw, steps=behs[0]))
 
 
 def reader_half(c):
@@ -154,13 +169,17 @@ def reader_half(c):
                    ("Pre_CursorAtReaderOnly", dict(shards=1, rec=1, page=1, starts=3, ckpts=2))):
         cc = consts(ninit=1, runners=(1,), **dict(dict(starts=2, ckpts=1), **dict(kw, **{sw: True})))
         jobs.append((cc, ["DesignOK"], "DesignOK", "KinesisReader non-vacuity " + brief(cc)))
+    vlib.build("kreader")
     started = tlc_start(jobs, wk, tl, par)
+    wex = ThreadPoolExecutor(max_workers=1)
+    wfut = wex.submit(witnesses, quick, s * 1000 + 373)
     c.exhaustive = True
 
     if quick:
-        gens = [(consts(ninit=2, shards=5, runners=(1, 2), rec=3, page=2, starts=3, ckpts=3, maxlen=60, log=True, **CODE), 90),
-                (consts(ninit=1, shards=4, runners=(1, 2, 3), rec=4, page=3, starts=4, ckpts=4, maxlen=70, log=True, **CODE), 90),
-                (consts(ninit=3, shards=6, runners=(1, 2, 3), rec=2, page=2, starts=3, ckpts=3, maxlen=80, log=True, **CODE), 60)]
+        gens = [(consts(ninit=2, shards=5, runners=(1, 2), rec=3, page=2, starts=3, ckpts=3, maxlen=60, log=True, **CODE), 70),
+                (consts(ninit=1, shards=4, runners=(1, 2, 3), rec=4, page=3, starts=4, ckpts=4, maxlen=70, log=True, **CODE), 70),
+                (consts(ninit=3, shards=6, runners=(1, 2, 3), rec=2, page=2, starts=3, ckpts=3, maxlen=80, log=True, **CODE), 50),
+                (consts(ninit=1, shards=3, runners=(1, 2), rec=4, page=2, starts=5, ckpts=5, maxlen=60, log=True, **CODE), 70)]
     else:
         gens = [(consts(ninit=n, shards=sh, runners=rs, rec=rec, page=pg, starts=st, ckpts=st, maxlen=ml, log=True, **CODE), 500)
                 for n, sh, rs, rec, pg, st, ml in ((1, 3, (1, 2), 4, 3, 4, 60), (1, 5, (1, 2, 3), 3, 2, 4, 80), (2, 5, (1, 2), 3, 2, 3, 70),
@@ -172,7 +191,8 @@ def reader_half(c):
             first = behs[0]
     if first:
         c.sample(dict(kind="KinesisReader.tla behaviour (first steps)", steps=first[:16]))
-    witnesses(c, s * 1000 + 373)
+    witnesses_collect(c, wfut.result())
+    wex.shutdown()
     tlc_collect(c, started)
     c.assumptions.append("C16 reader half (Kinesis): the job and the runner loop are played by the harness as jobs/job.go and "
                          "workers/sourcerunner do (per-runner FIFO of AssignSplits messages, one ReadEvents per Read step, "
